@@ -58,6 +58,9 @@ func genC18(cfg Config, ws *WorldSet, accepted []int, i int) C18Case {
 	setup := "{W}/" + world.Setup
 	cwd, in, gofile := InputForm(c18Forms[fm], setup)
 	iv := Invocation{Dry: fs&1 != 0, Print: fs&2 != 0, Log: fs&4 != 0, Cwd: cwd, Input: in, GoFile: gofile, FlagOrder: r.Intn(6)}
+	if r.Chance(1, 2) {
+		iv.Spell = 1 + r.Intn(1<<20)
+	}
 	pkgDir := filepath.Dir(setup)
 	// where the kernel is when the process starts (the symlinked form resolved)
 	physCwd := cwd
